@@ -89,20 +89,14 @@ theorem ellipsisTail_type (sk : ArgSkipper) (oldSrc : Bytes) (sw : SwRes) (src2 
             extract_lets after ll1
             with_reducible refine AllOk.bind _ _ ?_; intro rl
             split
-            · rename_i jp6 hh
-              have H6 : ∀ a, AllOk P45 (jp6 a) := by
-                intro u
-                jp_unfold jp6
-                with_reducible refine AllOk.bind _ _ ?_; intro llc
-                extract_lets jp7
-                have H7 : ∀ a, AllOk P45 (jp7 a) := by
-                  intro l
-                  jp_unfold jp7
-                  repeat' (first | exact H4 _ | allok_step)
-                clear_value jp7
-                repeat' (first | exact H7 _ | allok_step)
-              clear_value jp6
-              repeat' (first | exact H6 _ | allok_step)
+            · with_reducible refine AllOk.bind _ _ ?_; intro llc
+              extract_lets jp7
+              have H7 : ∀ a, AllOk P45 (jp7 a) := by
+                intro l
+                jp_unfold jp7
+                repeat' (first | exact H4 _ | allok_step)
+              clear_value jp7
+              repeat' (first | exact H7 _ | allok_step)
             · repeat' (first | exact H4 _ | allok_step)
         clear_value jp3
         repeat' (first | exact H3 _ | allok_step)
@@ -165,7 +159,7 @@ theorem finishArg_ellipsis (se : ElemScanner) (src : Bytes) (v : ValRes) (prev :
       cases hc : cells with
       | nil => rw [hc] at hl; cases hl
       | cons c cs => simp
-    extract_lets jp2
+    extract_lets numericRange jp2
     have H2 : ∀ a, AllOk P2 (jp2 a) := by
       intro x
       jp_unfold jp2
@@ -485,13 +479,31 @@ theorem scanArgVal_run (n : Nat) (hn : 1 ≤ n) (hn2 : n ≤ 2147483647) (t : By
   unfold finishArg
   simp [skipSpace, startsWith, pure, Except.pure]
 
+theorem tokStart_run (n : Nat) (hn : 1 ≤ n) (t : Bytes) : TokStart (runText n t) := by
+  rw [runText_eq]
+  have h := hd_mult n hn t
+  obtain ⟨_, _, _, _, _, _, _, _, _, _, _, _, b1, b2, b3, b4, b5, b6, b7⟩ := numStart_facts _ (Or.inr h)
+  exact ⟨by simp, b1, b2, b3, b4, b5, b6, b7⟩
+
+/-- `can_precede_range` of a repeated scalar `nxA` -/
+theorem canPrecedeRange_rep_scalar (n : Int) (c : Cell) (more : List Cell) (hsc : c.isScalar = true) :
+    canPrecedeRange (Cell.rep n 0 :: c :: more) = .ok true := by
+  unfold canPrecedeRange
+  cases c with
+  | int ty v => cases ty <;> simp [deref, ArgVal.Cell.type, ArgVal.tyA, ArgVal.IntTy.char, bind, Except.bind, pure, Except.pure]
+  | str ty v => cases ty <;> simp [deref, ArgVal.Cell.type, ArgVal.tyA, ArgVal.StrTy.char, bind, Except.bind, pure, Except.pure]
+  | flag ty => cases ty <;> simp [deref, ArgVal.Cell.type, ArgVal.tyA, ArgVal.FlagTy.char, bind, Except.bind, pure, Except.pure]
+  | _ => simp_all [deref, ArgVal.Cell.isScalar, ArgVal.Cell.type, ArgVal.tyA, bind, Except.bind, pure, Except.pure]
+
 theorem scanArgVals_run (n : Nat) (hn : 1 ≤ n) (hn2 : n ≤ 2147483647) (t : Bytes) (c : Cell) (htok : TokOK t c)
     (hsc : c.isScalar = true) :
     scanArgVals (runText n t) 2 = .ok ((runText n t).length, [Cell.rep n 0, c]) := by
   unfold scanArgVals
+  simp only [skipSpaceComments_tokStart _ _ (tokStart_run n hn t), bind, Except.bind, List.drop_zero]
   unfold scanArgValsLoop
   simp only [show (0 : Nat) < 2 from by decide, ↓reduceIte, bind, Except.bind,
-    scanArgVal_run n hn hn2 t c htok _ _ _ _, advance, Nat.le_refl, List.drop_length]
+    scanArgVal_run n hn hn2 t c htok _ _ _ _, advance, Nat.le_refl, List.drop_length,
+    canPrecedeRange_rep_scalar _ c [] hsc]
   have hoff : nextArgOffset 3 [Cell.rep (n : Int) 0, c] = .ok 2 := by
     unfold nextArgOffset
     simp only [deref, bind, Except.bind, List.drop_succ_cons, List.drop_zero]
@@ -517,12 +529,6 @@ theorem skipNext_run (n : Nat) (hn : 1 ≤ n) (t : Bytes) (c : Cell) (htok : Tok
   simp only [afterX_mult n hn t, hr', bind, Except.bind, hsrc, hsk, pure, Except.pure, skipSpace, startsWith]
   simp
 
-
-theorem tokStart_run (n : Nat) (hn : 1 ≤ n) (t : Bytes) : TokStart (runText n t) := by
-  rw [runText_eq]
-  have h := hd_mult n hn t
-  obtain ⟨_, _, _, _, _, _, _, _, _, _, _, _, b1, b2, b3, b4, b5, b6, b7⟩ := numStart_facts _ (Or.inr h)
-  exact ⟨by simp, b1, b2, b3, b4, b5, b6, b7⟩
 
 theorem countLoop_run (n : Nat) (hn : 1 ≤ n) (t : Bytes) (c : Cell) (htok : TokOK t c) (hsc : c.isScalar = true)
     (fuel : Nat) (recent : Option Bytes) (num : Int) :
